@@ -73,6 +73,10 @@ def b_list(reg, eng, st, args, kwargs, node):
     if v.t[0] == "seq":
         return [(st, v)]
     m = _sym_coll(eng, v)
+    if v.t[0] == "set" or (v.t[0] == "bag" and v.x.get_id() in eng.nodup):
+        # list(<set>): a list without duplicates
+        eng.nodup.add(m.x.get_id())
+        eng._nodup_keep.append(m.x)
     return [(st, V(("bag", m.t[1]), m.x))]
 
 
@@ -138,6 +142,10 @@ def b_sorted(reg, eng, st, args, kwargs, node):
         st.assume(z3.ForAll([j, k], z3.Implies(z3.And(0 <= j, j < k, k < n), le(res.x[j], res.x[k]))))
         return [(st, res)]
     # bag view: same elements, order abstracted away (callers may only use it as a collection)
+    if v.t[0] == "set" or (v.t[0] == "bag" and v.x.get_id() in eng.nodup):
+        # sorted(<set>) / sorted(<duplicate-free list>): a permutation, hence again without duplicates
+        eng.nodup.add(m.x.get_id())
+        eng._nodup_keep.append(m.x)
     return [(st, V(("bag", m.t[1]), m.x))]
 
 
@@ -625,6 +633,11 @@ def m_join(reg, eng, st, recv, args, kwargs, node, rexpr):
         return [(st, vstr(t))]
     if o.t[0] == "seq" and o.t[1] == ("str",):
         return [(st, vstr(reg.join_fn(eng, st, recv, o)))]
+    if (eng.c is not None and "join_rel" in getattr(eng.c, "opts", ()) and getattr(reg, "join_bag_fn", None) is not None
+            and o.t[0] in ("bag", "set") and o.t[1] == ("str",) and recv.t == ("str",)):
+        # opt-in (contract option "join_rel"): sep.join(<list seen as the collection S of its elements>) is SOME text t with is_join(t, sep, S)
+        # ("t is the sep-join of some arrangement of a list whose element set is S": order and multiplicities stay unmodelled)
+        return [(st, reg.join_bag_fn(eng, st, recv, o))]
     # text rendering of an unordered collection: not modelled (message text level is bounded, never proved)
     return [(st, fresh("Str", "joined"))]
 
